@@ -64,6 +64,7 @@ static std::string repeat(const std::string &s, size_t n) {
   return o;
 }
 
+#ifndef C01_NO_MAIN
 int main(int argc, char **argv) {
   return vh::run_main(
       argc, argv,
@@ -92,3 +93,4 @@ int main(int argc, char **argv) {
       },
       [] { g_chai = vh::make_engine(true); });
 }
+#endif
